@@ -396,6 +396,7 @@ def run(ctx, rep):
     rep.floor("C10.Ident construction sites", n_sites, 7)
     rep.floor("C10.Ident constructions derived from another Ident", n_derived, 2)
     scope_discipline(F, rep)
+    scope_walk(F, rep)
 
 
 def scope_discipline(F, rep):
@@ -432,3 +433,118 @@ def scope_discipline(F, rep):
         rep.ob("C10.scope", "%s registers the parameters after pushing the function's own scope" % mir.short(f.path), "ok" if ok else "violated", "", c.span,
                fn=f.path, key="C10.scope|%s|push-before-register" % mir.short(f.path))
     rep.floor("C10.callers registering parameters", n, 3)
+
+
+BLOCK_SCOPES = ("IfBlock", "ElseBlock", "WhileLoop", "NumberLoop")
+SCOPE_WALKS = ("compiler::parser::AssocFileData::has_name_been_mapped_in_function",)
+
+
+def _scope_pred_table(F, pred_fn):
+    """value of a `fn(&Scope) -> bool` on each ScopeType variant (finite domain; the other fields of the scope stay opaque)"""
+    import absint
+    from absint import Interp, Variant, Opaque, Int
+    adt = F.adt("compiler::scope::ScopeType")
+    sc = F.adt("compiler::scope::Scope")
+    if adt is None or sc is None:
+        raise AnchorMissing("compiler::scope::ScopeType / Scope")
+    names = [f["name"] for f in sc["variants"][0]["fields"]]
+    if "ty" not in names:
+        raise AnchorMissing("Scope.ty")
+    table = {}
+    for vi, v in enumerate(adt["variants"]):
+        tyv = Variant("compiler::scope::ScopeType", vi, v["name"], [Opaque("payload%d" % i) for i in range(len(v["fields"]))])
+        scope = Variant("compiler::scope::Scope", 0, "Scope", [tyv if n == "ty" else Opaque(n) for n in names])
+        it = Interp(F, max_depth=4, max_paths=64)
+        try:
+            outs = it.run(pred_fn, [scope])
+        except (ValueError, KeyError):
+            table[v["name"]] = None
+            continue
+        vals = set()
+        for o in outs:
+            vals.add(bool(o.value.v) if (o.kind == "return" and isinstance(o.value, Int)) else None)
+        table[v["name"]] = vals.pop() if (len(vals) == 1 and not it.exhausted) else None
+    return table
+
+
+def scope_walk(F, rep):
+    """`did this name exist before` is answered by walking the scope stack outwards.  A block (if / else / while / from) owns no names of its
+    own frame, so the walk may stop early only at scopes that do: a predicate that ends the walk must be false on every block scope kind, or a
+    constant declared outside the block is taken for undeclared and `NAME = v` inside the block becomes a fresh declaration."""
+    n_exits = 0
+    for path in SCOPE_WALKS:
+        w = F.fn(path)
+        if w is None:
+            raise AnchorMissing(path)
+        bodies = [w] + F.closures_of(w)
+        heads = [c for c in w.calls() if c.callee().endswith("Iterator>::next") and "ScopeIter" in c.callee()]
+        combin = [c for c in w.calls() if "ScopeIter" in c.callee() or (c.args and op_local(c.args[0]) is not None and "ScopeIter" in w.locals[op_local(c.args[0])])]
+        if not heads and not combin:
+            raise AnchorMissing(path + ": no walk over ScopeIter")
+        exits = []     # (body, switch bb, exit value of predicate | None, predicate call | None)
+        for g in bodies:
+            g_heads = [c.bb for c in g.calls() if c.callee().endswith("Iterator>::next") and "ScopeIter" in c.callee()]
+            next_dsts = [c.dst["l"] for c in g.calls() if c.callee().endswith("Iterator>::next") and "ScopeIter" in c.callee()]
+            found = [c.dst["l"] for c in g.calls() if c.matches("compiler::scope::Scope::contains")]
+            der_skip = g.derived(next_dsts, through_call=None)
+            der_found = g.derived(found, through_call=lambda c, idx: True)
+            preds = [c for c in g.calls() if c.callee().startswith("compiler::scope::Scope::") and not c.matches("compiler::scope::Scope::contains")
+                     and c.args and op_local(c.args[0]) is not None and g.locals[c.dst["l"]] == "bool"]
+            in_loop = set()
+            if g is w and g_heads:
+                for h in g_heads:
+                    r = g.reachable(h)
+                    in_loop |= {b for b in r if h in g.reachable(b)}
+            else:
+                in_loop = set(range(len(g.blocks))) if g is not w else set()
+            for bi in sorted(in_loop):
+                t = g.blocks[bi]["t"]
+                if t["k"] != "switch":
+                    continue
+                dl = op_local(t["discr"])
+                succ = [tg for _, tg in t["targets"]] + [t["otherwise"]]
+                if g is w:
+                    leaving = [s for s in succ if not any(h in g.reachable(s) for h in g_heads)
+                               and g.blocks[s]["t"]["k"] != "unreachable"]
+                    if not leaving or dl in der_skip:
+                        continue
+                else:
+                    leaving = succ
+                if dl in der_found and not any(dl in g.derived([p.dst["l"]]) for p in preds):
+                    continue      # leaves because the name was found
+                pc = None
+                pol = None
+                for p_ in preds:
+                    d = g.derived([p_.dst["l"]])
+                    if dl in d:
+                        pc, pol = p_, d[dl]
+                if g is not w and pc is None:
+                    continue      # closures: only scope predicates are of interest
+                if pc is None or pol is None or t.get("dty") != "bool" or g is not w:
+                    exits.append((g, bi, None, pc))
+                    continue
+                f_t = next((tg for v, tg in t["targets"] if v == "0"), None)
+                for s in leaving:
+                    sw_val = (s != f_t)
+                    exits.append((g, bi, sw_val if pol else (not sw_val), pc))
+        n_exits += len(exits)
+        if not exits:
+            rep.ob("C10.scope-walk", "%s looks through every enclosing scope (no early exit other than `found`)" % mir.short(path), "ok", "", w.span, fn=w.path,
+                   key="C10.scope-walk|%s" % mir.short(path))
+            continue
+        for g, bi, val, pc in exits:
+            if pc is None or val is None:
+                rep.ob("C10.scope-walk", "%s: the walk is cut short by a test that is not a call of a Scope predicate" % mir.short(path), "undecided",
+                       "switch in bb%d of %s" % (bi, mir.short(g.path)), g.span, fn=g.path, key="C10.scope-walk|%s|bb-test" % mir.short(path))
+                continue
+            pf = F.fn(pc.callee())
+            tab = _scope_pred_table(F, pf) if pf is not None else {}
+            stops = sorted(k for k, v in tab.items() if v == val)
+            unknown = sorted(k for k in BLOCK_SCOPES if tab.get(k) is None)
+            bad = [k for k in BLOCK_SCOPES if tab.get(k) == val]
+            st = "violated" if bad else ("undecided" if unknown else "ok")
+            rep.ob("C10.scope-walk", "%s stops looking outwards only at scopes that own their names, never at a block (%s)" % (mir.short(path), ", ".join(BLOCK_SCOPES)), st,
+                   "walk ends when %s is %s, i.e. at scope kinds %s%s" % (mir.short(pc.callee()), str(val).lower(), stops,
+                                                                            ("; stops at block scope(s) %s: a name declared outside that block is not seen" % bad) if bad else ""),
+                   pc.span, fn=w.path, key="C10.scope-walk|%s|%s" % (mir.short(path), mir.short(pc.callee())))
+    rep.floor("C10.scope-walk early exits judged", n_exits, 1)
